@@ -28,6 +28,9 @@ enum SimkRoute
 };
 void simk_route(const char *ip, uint16_t port, SimkRoute r); // default for unknown destinations: REFUSE_ASYNC
 
+// per-attempt connect outcomes for a port: the k-th connect() gets outcomes[k] (0 = normal behaviour, else a
+// SimkRoute value) even if a listener exists; connects beyond the script behave normally
+void simk_connect_script(uint16_t port, const int *outcomes, int n);
 void simk_set_rcvbuf(int fd, int bytes);
 std::string simk_txlog(int fd);      // bytes sent so far through this stream endpoint (tap)
 uint64_t simk_conn_id(int fd);       // stable id of the connection an fd belongs to (0 if none)
